@@ -14,7 +14,7 @@ pub fn property() -> Property {
     Property {
         id: "C19",
         level: "fault_enumeration",
-        rule: "The scripted peer serves a prefix of a well-formed response and then PAUSES (a read arriving at the pause is what would block on a real socket and is recorded as blocked_read). Pause points: EVERY wire offset from the end of the head to the end of the frame for 18 fixed small responses (exhaustive; covers after-the-head, after each complete chunk, inside size lines / CRLFs, after every byte of length- and close-delimited bodies), sampled offsets and chunk boundaries for random and > 64 KiB bodies; served prefix as one segment, bytewise or random segments; caller read sizes {1,2,7,4096, larger than available}. 'tls-pause': the statement over TLS - a real loopback TLS server sends head + 5 000 body bytes, pauses 2 s, sends the rest (three framings x caller buffers 65 536 / 40 000 / 16 384 / 1): send() returns and the first part is readable within 1.2 s. Oracle (purely logical, no clock): send() returns Ok with zero blocked reads once the blank line was served; while the caller has received less than the AVAILABLE payload (all served bytes for length/close framing; data of every chunk whose trailing CRLF was served, computed by the reference decoder) no read may block, fail or report end-of-body, and delivered bytes equal the payload prefix; when the whole frame (length/chunked) was served the end-of-body read returns Ok(0) without blocking, and so do two further reads; a followed redirect whose body the server holds back (5 statuses x 3 framings x 4 amounts served) is followed without a blocked read on the first connection; with two requests in flight on real loopback sockets, the one whose response has arrived is delivered while the other one's server is still silent. write_to() and split().2.write_to() are driven at every pause offset of the 18 fixed responses too: the caller's writer must have received all AVAILABLE bytes before write_to first asks the transport for bytes the server has not sent. Non-trivial: available > 0 or pause right after the head; distinct = hash(wire, pause offset, segmentation, read size).",
+        rule: "The scripted peer serves a prefix of a well-formed response and then PAUSES (a read arriving at the pause is what would block on a real socket and is recorded as blocked_read). Pause points: EVERY wire offset from the end of the head to the end of the frame for 18 fixed small responses (exhaustive; covers after-the-head, after each complete chunk, inside size lines / CRLFs, after every byte of length- and close-delimited bodies), sampled offsets and chunk boundaries for random and > 64 KiB bodies; served prefix as one segment, bytewise or random segments; caller read sizes {1,2,7,4096, larger than available}. 'tls-pause': the statement over TLS - a real loopback TLS server sends head + 5 000 body bytes, pauses 2 s, sends the rest (three framings x caller buffers 65 536 / 40 000 / 16 384 / 1): send() returns and the first part is readable within 1.2 s. The bodiless generator also serves `Content-Length: 0` under every status and method. Oracle (purely logical, no clock): send() returns Ok with zero blocked reads once the blank line was served; while the caller has received less than the AVAILABLE payload (all served bytes for length/close framing; data of every chunk whose trailing CRLF was served, computed by the reference decoder) no read may block, fail or report end-of-body, and delivered bytes equal the payload prefix; when the whole frame (length/chunked) was served the end-of-body read returns Ok(0) without blocking, and so do two further reads; a followed redirect whose body the server holds back (5 statuses x 3 framings x 4 amounts served) is followed without a blocked read on the first connection; with two requests in flight on real loopback sockets, the one whose response has arrived is delivered while the other one's server is still silent. write_to() and split().2.write_to() are driven at every pause offset of the 18 fixed responses too: the caller's writer must have received all AVAILABLE bytes before write_to first asks the transport for bytes the server has not sent. Non-trivial: available > 0 or pause right after the head; distinct = hash(wire, pause offset, segmentation, read size).",
         assumptions: &["uncompressed bodies only (the statement's quantifier)", "delivering more than the statement's minimum (e.g. the first 64 KiB of an incomplete chunk) is not a violation"],
         min_nontrivial: |t| t.pick(5_000, 100_000),
         gens,
@@ -35,7 +35,7 @@ fn gens(tier: Tier) -> Vec<Gen> {
         Gen { name: "concurrent-heads", count: 6, exhaustive: true, run: run_concurrent_heads },
         #[cfg(any(feature = "native", feature = "rustls-any"))]
         Gen { name: "tls-pause", count: (3 * 4 * 2) as u64, exhaustive: true, run: run_tls_pause },
-        Gen { name: "nobody", count: 48, exhaustive: true, run: run_nobody },
+        Gen { name: "nobody", count: 80, exhaustive: true, run: run_nobody },
         Gen { name: "both-framings", count: 2 * 3 * 14, exhaustive: true, run: run_both_framings },
     ]
 }
@@ -377,17 +377,19 @@ fn run_large(ctx: &mut Ctx, rng: &mut Rng, _index: u64) {
 fn run_nobody(ctx: &mut Ctx, _rng: &mut Rng, index: u64) {
     let methods = ["HEAD", "GET"];
     let statuses = [200u16, 204, 304, 100];
-    let framings = ["", "Content-Length: 10\r\n", "Transfer-Encoding: chunked\r\n"];
+    // (`Content-Length: 0`: a body that is empty by declaration - the end of it can be reported at
+    //  once under ANY status and method, the connection stays open here)
+    let framings = ["", "Content-Length: 10\r\n", "Transfer-Encoding: chunked\r\n", "Content-Length: 0\r\n", "content-length:0\r\nConnection: keep-alive\r\n"];
     let segs = [0u8, 1];
     let mut i = index as usize;
     let seg = segs[i % 2];
     i /= 2;
-    let fr = framings[i % 3];
-    i /= 3;
+    let fr = framings[i % 5];
+    i /= 5;
     let status = statuses[i % 4];
     i /= 4;
     let method = methods[i % 2];
-    let no_body = method == "HEAD" || status != 200;
+    let no_body = method == "HEAD" || status != 200 || fr.to_ascii_lowercase().contains("content-length: 0") || fr.to_ascii_lowercase().contains("content-length:0");
     if !no_body {
         ctx.gray();
         return;
